@@ -42,6 +42,25 @@ var (
 
 const maxOIDLength = 10
 
+// maxDSAModulusBits and maxDSASubgroupBits are the longest DSA parameters p and q a
+// signature is verified for. FIPS 186-4 specifies p of up to 3072 and q of up to 256 bits.
+// The verification computes two exponentiations modulo p whose exponents are as long as q,
+// and nothing else limits either: with all parameters as long as an MPI can be (65535
+// bits) a key of 40 KiB with one self-signature keeps the verifier busy for minutes, and
+// with a modulus of that length every further (100-octet) signature costs seconds.
+const (
+	maxDSAModulusBits  = 4096
+	maxDSASubgroupBits = 256
+)
+
+// checkDSAParameters reports parameters that are not verified with.
+func checkDSAParameters(pub *dsa.PublicKey) error {
+	if pub.P.BitLen() > maxDSAModulusBits || pub.Q.BitLen() > maxDSASubgroupBits {
+		return errors.UnsupportedError("DSA parameters longer than " + strconv.Itoa(maxDSAModulusBits) + "/" + strconv.Itoa(maxDSASubgroupBits) + " bits")
+	}
+	return nil
+}
+
 // x25519PublicKeySize is the length of a Curve25519 public key (RFC 7748).
 const x25519PublicKeySize = 32
 
@@ -633,6 +652,9 @@ func (pk *PublicKey) VerifySignature(signed hash.Hash, sig *Signature) (err erro
 		return nil
 	case PubKeyAlgoDSA:
 		dsaPublicKey, _ := pk.PublicKey.(*dsa.PublicKey)
+		if err := checkDSAParameters(dsaPublicKey); err != nil {
+			return err
+		}
 		// Need to truncate hashBytes to match FIPS 186-3 section 4.6.
 		subgroupSize := (dsaPublicKey.Q.BitLen() + 7) / 8
 		if len(hashBytes) > subgroupSize {
@@ -703,6 +725,9 @@ func (pk *PublicKey) VerifySignatureV3(signed hash.Hash, sig *SignatureV3) (err 
 		return
 	case PubKeyAlgoDSA:
 		dsaPublicKey := pk.PublicKey.(*dsa.PublicKey)
+		if err := checkDSAParameters(dsaPublicKey); err != nil {
+			return err
+		}
 		// Need to truncate hashBytes to match FIPS 186-3 section 4.6.
 		subgroupSize := (dsaPublicKey.Q.BitLen() + 7) / 8
 		if len(hashBytes) > subgroupSize {
